@@ -881,7 +881,8 @@ pub fn run(o: &DriveOpts, out: &mut dyn Write, tid: usize) -> Value {
                 let mut shape: Vec<(usize, usize)> = vec![(0, 0); total];
                 let mut usedl: Vec<Vec<usize>> = vec![vec![]; total];
                 for i in 1..total {
-                    let (lo, hi) = if i < a { (0, i) } else if i == a { (0, a) } else { (a, i) };
+                    // (the last vertex of A may be left out of g: it has to stay a leaf, so B never hangs below it)
+                    let (lo, hi) = if i < a { (0, i) } else if i == a { (0, a - 1) } else { (a, i) };
                     let cands: Vec<usize> = (lo..hi).filter(|p| usedl[*p].len() < nlab).collect();
                     let Some(par) = cands.choose(&mut rng).copied() else { continue };
                     let free: Vec<usize> = (0..nlab).filter(|l| !usedl[par].contains(l)).collect();
